@@ -222,9 +222,24 @@ impl BinRead for InstallTag {
         })?;
 
         // Read bit mask
+        // (entry_count is a header field: grow the buffer with the data actually
+        // present instead of allocating the announced size up front)
         let bit_mask_size = (entry_count as usize).div_ceil(8);
-        let mut bit_mask = vec![0u8; bit_mask_size];
-        reader.read_exact(&mut bit_mask)?;
+        let mut bit_mask = Vec::new();
+        reader
+            .by_ref()
+            .take(bit_mask_size as u64)
+            .read_to_end(&mut bit_mask)?;
+        if bit_mask.len() != bit_mask_size {
+            return Err(binrw::Error::Io(std::io::Error::new(
+                std::io::ErrorKind::UnexpectedEof,
+                format!(
+                    "tag bit mask truncated: expected {} bytes, got {}",
+                    bit_mask_size,
+                    bit_mask.len()
+                ),
+            )));
+        }
 
         Ok(Self {
             name,
